@@ -231,6 +231,24 @@ def check(F, H1, role='both'):
         o_sz = ['ECU', 'SEID', 'TMSP', 'EXT']
     size_w = {fl: total(d.get('len', [])) for fl, d in c_tw.items()}
     bits_w = {fl: [v for op, v in d.get('htyp', []) if op == 'BitOr'] for fl, d in c_tw.items()}
+    # preferred for the writer as well: the (htyp, length) table over all valuations - independent of whether the bits and
+    # sizes are accumulated by `|=`/`+=` under ifs, computed by a helper, or summed from per-part expressions
+    wt = writer_tables(F, tw, hc) if len(hc) == 4 else None
+    if wt is not None:
+        PARTS = ('ECU', 'SEID', 'TMSP', 'EXT')
+        wbase = wt[(0, ())][1]
+        size_w = {fl: wt[(0, (fl,))][1] - wbase for fl in PARTS}
+        bits_w = {fl: [wt[(0, (fl,))][0] ^ wt[(0, ())][0]] for fl in PARTS}
+        for (be, k), (h, ln, _n) in wt.items():
+            if ln != wbase + sum(size_w[f] for f in k):
+                for f in k:
+                    size_w[f] = 'nonadditive'
+            want_h = wt[(0, ())][0] | sum(bits_w[f][0] for f in k)
+            if (h & ~2) != (want_h & ~2):
+                for f in (k or PARTS):
+                    bits_w[f] = bits_w[f] + ['inconsistent:%s' % '+'.join(k)]
+        i_tw = {'len': wbase}
+        H1.sample_writer_table = True
     want_size = {'ECU': 4, 'SEID': 4, 'TMSP': 4, 'EXT': 10}
     H1.sites += 8
     for fl in ('ECU', 'SEID', 'TMSP', 'EXT'):
@@ -608,6 +626,51 @@ def reader_tables(F, sz, ts, bits):
     except Unknown:
         return None
     return sizes, offs
+
+
+def writer_tables(F, tw, bits):
+    """{(big_endian, flags present): (htyp byte, length field for an empty payload)} of DltStandardHeader::to_write by
+    constant propagation over the 2 x 16 valuations of byte order and optional parts (helpers and closures are followed),
+    read off the first four bytes handed to write_all: [htyp, mcnt, len_hi, len_lo].  None when not computable."""
+    import cinterp
+    out = {}
+    try:
+        for be in (0, 1):
+            for fl in flag_valuations():
+                key = tuple(sorted(k for k, v in fl.items() if v))
+                trace = []
+
+                def hooks(path, args, term, be=be, fl=fl, trace=trace):
+                    nm = path.split('::')[-1]
+                    if path.startswith(SH) and nm == 'is_big_endian':
+                        return be
+                    if path.startswith(SH) and nm in HAS:
+                        return fl[HAS[nm]]
+                    if nm == 'write_all':
+                        trace.append(('write', args[1] if len(args) > 1 else None))
+                        return cinterp.Variant(0)
+                    if path.endswith('DltExtendedHeader::to_write'):
+                        trace.append(('ext', None))
+                        return cinterp.Variant(0)
+                    return NotImplemented
+                it = cinterp.Interp(F, hooks)
+                args = []
+                for i in range(1, tw.arg_count + 1):
+                    nm = tw.name_of(i)
+                    if nm in PARAM:
+                        args.append(cinterp.Variant(fl[PARAM[nm]]))
+                    elif tw.lty(i) in ('&[u8]', '&std::vec::Vec<u8>'):
+                        args.append(cinterp.SliceOfLen(0))
+                    else:
+                        args.append(None)
+                it.run(tw, args)
+                w = [v for (k, v) in trace if k == 'write']
+                if not w or not (isinstance(w[0], tuple) and len(w[0]) == 4 and all(isinstance(w[0][i], int) for i in (0, 2, 3))):
+                    return None
+                out[(be, key)] = (w[0][0], (w[0][2] << 8) | w[0][3], len(trace))
+    except cinterp.Unknown:
+        return None
+    return out
 
 
 # ---------------------------------------------------------------------------------------------
